@@ -73,7 +73,7 @@ def build(ub, algebra_text):
         ub.emit_fn(NODES, m, "verify", impl="impl Type", spec_key="Type::" + m, cfg={"receivers": {}, "no_canary": True})
     bcfg = {"receivers": {"self": "node_raw"}}  # `self[e]` inside a builder is the real Index impl (verified above as node_raw)
     for b in L1_BUILDERS:
-        if b in ("zero_extend", "sign_extend"):  # C12: structural contract (contracts/context_l1.spec), stronger than the one other units assume
+        if b in ("zero_extend", "sign_extend", "slice"):  # C12: structural contract (contracts/context_l1.spec), stronger than the one other units assume
             ub.emit_fn(CTX, b, "verify", impl="impl Context", spec_key="l1::" + b, cfg=dict(bcfg, obligation_name=b))
         else:
             ub.emit_fn(CTX, b, "verify", impl="impl Context", cfg=bcfg)
